@@ -24,14 +24,29 @@ func (m *Mutex) Unlock() {
 }
 func (m *Mutex) TryLock() bool { return m.mu.TryLock() }
 
-// RWMutex wraps sync.RWMutex.
-type RWMutex struct{ mu sync.RWMutex }
+// RWMutex wraps sync.RWMutex and models its writer preference: once a writer has asked for the
+// lock, new readers wait (also a reader that already holds a read lock and asks again: the nested
+// read lock deadlock of the real type). The pending-writer count is scheduler state: it is touched
+// only inside //go:norace functions, so it creates no happens-before edge.
+type RWMutex struct {
+	mu      sync.RWMutex
+	pending int
+}
+
+//go:norace
+func (m *RWMutex) addPending(d int) { m.pending += d }
+
+//go:norace
+func (m *RWMutex) writerPending() bool { return m.pending > 0 }
 
 func (m *RWMutex) Lock() {
 	simrt.Yield(-1)
+	m.addPending(1)
 	for !m.mu.TryLock() {
 		simrt.YieldBlocked()
 	}
+	m.addPending(-1)
+	simrt.Released() // readers that waited for the pending writer are looked at again (and find the lock held)
 }
 func (m *RWMutex) Unlock() {
 	m.mu.Unlock()
@@ -40,7 +55,7 @@ func (m *RWMutex) Unlock() {
 }
 func (m *RWMutex) RLock() {
 	simrt.Yield(-3)
-	for !m.mu.TryRLock() {
+	for m.writerPending() || !m.mu.TryRLock() {
 		simrt.YieldBlocked()
 	}
 }
@@ -50,7 +65,7 @@ func (m *RWMutex) RUnlock() {
 	simrt.Yield(-4)
 }
 func (m *RWMutex) TryLock() bool  { return m.mu.TryLock() }
-func (m *RWMutex) TryRLock() bool { return m.mu.TryRLock() }
+func (m *RWMutex) TryRLock() bool { return !m.writerPending() && m.mu.TryRLock() }
 
 // The remaining names are passed through unchanged.
 type (
